@@ -95,7 +95,7 @@ func (s *explorer) eval(a artefact) {
 }
 
 // resetEvery is the number of evaluations after which ANTLR's prediction caches are dropped (overlay accessor in cypher/parser).
-const resetEvery = 50000
+const resetEvery = 2000
 
 func main() {
 	run := core.Start("C07", "exploration")
